@@ -1,5 +1,881 @@
 (* EqualProofs.v — proofs about the model in Equal.v (property C13). *)
 From Quiver Require Import Base Equal.
+Require Import Lia.
 
-Lemma compute_canonical_nil : compute_canonical [] = [].
+(* ================================================================ boolean equalities *)
+
+Lemma list_eqb_spec {A} (eqb : A -> A -> bool) :
+  (forall a b, eqb a b = true <-> a = b) ->
+  forall x y, list_eqb eqb x y = true <-> x = y.
+Proof.
+  intros Heq x. induction x as [|a x IH]; intros [|b y]; cbn [list_eqb]; split; intro H;
+    try reflexivity; try discriminate.
+  - apply andb_true_iff in H. destruct H as [H1 H2].
+    apply Heq in H1. apply IH in H2. subst. reflexivity.
+  - inversion H; subst. apply andb_true_iff. split; [apply Heq; reflexivity | apply IH; reflexivity].
+Qed.
+
+Lemma option_eqb_spec {A} (eqb : A -> A -> bool) :
+  (forall a b, eqb a b = true <-> a = b) ->
+  forall x y, option_eqb eqb x y = true <-> x = y.
+Proof.
+  intros Heq [a|] [b|]; cbn [option_eqb]; split; intro H; try reflexivity; try discriminate.
+  - apply Heq in H. subst. reflexivity.
+  - inversion H; subst. apply Heq. reflexivity.
+Qed.
+
+Lemma bytes_eqb_eq x y : bytes_eqb x y = true <-> x = y.
+Proof. apply list_eqb_spec. intros a b. apply Z.eqb_eq. Qed.
+
+Lemma bytes_eqb_refl x : bytes_eqb x x = true.
+Proof. apply bytes_eqb_eq. reflexivity. Qed.
+
+Lemma shape_eqb_eq a b : shape_eqb a b = true <-> a = b.
+Proof.
+  destruct a as [na la], b as [nb lb]. unfold shape_eqb. cbn [fst snd].
+  rewrite andb_true_iff.
+  rewrite (option_eqb_spec _ bytes_eqb_eq).
+  rewrite (list_eqb_spec _ (option_eqb_spec _ bytes_eqb_eq)).
+  split; [intros [H1 H2]; subst; reflexivity | intro H; inversion H; auto].
+Qed.
+
+Lemma shape_eqb_refl a : shape_eqb a a = true.
+Proof. apply shape_eqb_eq. reflexivity. Qed.
+
+Lemma shape_eqb_neq a b : shape_eqb a b = false <-> a <> b.
+Proof.
+  split.
+  - intros H E. apply shape_eqb_eq in E. congruence.
+  - intro H. destruct (shape_eqb a b) eqn:E; [apply shape_eqb_eq in E; contradiction | reflexivity].
+Qed.
+
+(* ================================================================ canonical tuples *)
+
+(* specification: index of the first entry of the table with the given shape *)
+Fixpoint find_first (sh : shape) (ts : list tuple_info) : option nat :=
+  match ts with
+  | [] => None
+  | t :: r => if shape_eqb (shape_of t) sh then Some 0%nat else option_map S (find_first sh r)
+  end.
+
+Lemma find_first_app sh pre l :
+  find_first sh (pre ++ l) =
+  match find_first sh pre with
+  | Some j => Some j
+  | None => option_map (fun k => (length pre + k)%nat) (find_first sh l)
+  end.
+Proof.
+  induction pre as [|t pre IH]; cbn [find_first app length].
+  - destruct (find_first sh l); reflexivity.
+  - destruct (shape_eqb (shape_of t) sh); [reflexivity|].
+    rewrite IH. destruct (find_first sh pre); cbn [option_map]; [reflexivity|].
+    destruct (find_first sh l); reflexivity.
+Qed.
+
+Lemma find_first_some sh ts j :
+  find_first sh ts = Some j ->
+  (exists info, nth_error ts j = Some info /\ shape_of info = sh) /\
+  (forall i info, (i < j)%nat -> nth_error ts i = Some info -> shape_of info <> sh).
+Proof.
+  revert j. induction ts as [|t ts IH]; intros j H; cbn [find_first] in H; [discriminate|].
+  destruct (shape_eqb (shape_of t) sh) eqn:E.
+  - inversion H; subst. split.
+    + exists t. split; [reflexivity | apply shape_eqb_eq; exact E].
+    + intros i info Hi. lia.
+  - destruct (find_first sh ts) as [j'|] eqn:F; cbn [option_map] in H; [|discriminate].
+    inversion H; subst. destruct (IH j' eq_refl) as [[info [Hn Hs]] Hmin]. split.
+    + exists info. split; assumption.
+    + intros i info' Hi Hn'. destruct i as [|i]; cbn [nth_error] in Hn'.
+      * inversion Hn'; subst. apply shape_eqb_neq. exact E.
+      * apply (Hmin i info'); [lia | assumption].
+Qed.
+
+Lemma find_first_present ts k info :
+  nth_error ts k = Some info -> exists j, find_first (shape_of info) ts = Some j /\ (j <= k)%nat.
+Proof.
+  revert k. induction ts as [|t ts IH]; intros k H; [destruct k; discriminate|].
+  cbn [find_first]. destruct (shape_eqb (shape_of t) (shape_of info)) eqn:E.
+  - exists 0%nat. split; [reflexivity | lia].
+  - destruct k as [|k]; cbn [nth_error] in H.
+    + inversion H; subst. rewrite shape_eqb_refl in E. discriminate.
+    + destruct (IH k H) as [j [Hj Hle]]. exists (S j). rewrite Hj. split; [reflexivity | lia].
+Qed.
+
+Definition acc_ok (acc : list (shape * nat)) (pre : list tuple_info) : Prop :=
+  forall sh, assoc_shape sh acc = find_first sh pre.
+
+Lemma find_first_snoc sh pre info :
+  find_first sh (pre ++ [info]) =
+  match find_first sh pre with
+  | Some j => Some j
+  | None => if shape_eqb (shape_of info) sh then Some (length pre) else None
+  end.
+Proof.
+  rewrite find_first_app. destruct (find_first sh pre); [reflexivity|].
+  cbn [find_first]. destruct (shape_eqb (shape_of info) sh); cbn [option_map]; [|reflexivity].
+  f_equal. lia.
+Qed.
+
+Lemma acc_ok_hit acc pre info c :
+  acc_ok acc pre -> assoc_shape (shape_of info) acc = Some c -> acc_ok acc (pre ++ [info]).
+Proof.
+  intros Hok Hc sh. rewrite find_first_snoc. rewrite (Hok sh).
+  destruct (find_first sh pre) eqn:F; [reflexivity|].
+  destruct (shape_eqb (shape_of info) sh) eqn:E; [|reflexivity].
+  apply shape_eqb_eq in E. subst sh. rewrite <- (Hok (shape_of info)) in F. congruence.
+Qed.
+
+Lemma acc_ok_miss acc pre info :
+  acc_ok acc pre -> assoc_shape (shape_of info) acc = None ->
+  acc_ok ((shape_of info, length pre) :: acc) (pre ++ [info]).
+Proof.
+  intros Hok Hc sh. rewrite find_first_snoc. cbn [assoc_shape].
+  destruct (shape_eqb (shape_of info) sh) eqn:E.
+  - apply shape_eqb_eq in E. subst sh. rewrite <- (Hok (shape_of info)), Hc. reflexivity.
+  - rewrite (Hok sh). destruct (find_first sh pre); reflexivity.
+Qed.
+
+Lemma canon_go_spec ts : forall pre acc,
+  acc_ok acc pre ->
+  forall k info, nth_error ts k = Some info ->
+  nth_error (canon_go acc (length pre) ts) k = find_first (shape_of info) (pre ++ ts).
+Proof.
+  induction ts as [|info0 rest IH]; intros pre acc Hok k info Hk; [destruct k; discriminate|].
+  cbn [canon_go].
+  assert (Hlen : S (length pre) = length (pre ++ [info0])) by (rewrite app_length; cbn; lia).
+  assert (Happ : pre ++ info0 :: rest = (pre ++ [info0]) ++ rest) by (rewrite <- app_assoc; reflexivity).
+  destruct (assoc_shape (shape_of info0) acc) as [c|] eqn:Hc.
+  - destruct k as [|k]; cbn [nth_error] in *.
+    + inversion Hk; subst. rewrite find_first_app, <- (Hok (shape_of info)), Hc. reflexivity.
+    + rewrite Hlen, Happ. apply IH; [eapply acc_ok_hit; eassumption | assumption].
+  - destruct k as [|k]; cbn [nth_error] in *.
+    + inversion Hk; subst. rewrite find_first_app, <- (Hok (shape_of info)), Hc.
+      cbn [find_first]. rewrite shape_eqb_refl. cbn [option_map]. f_equal. lia.
+    + rewrite Hlen, Happ. apply IH; [apply acc_ok_miss; assumption | assumption].
+Qed.
+
+Lemma compute_canonical_spec ts k info :
+  nth_error ts k = Some info ->
+  nth_error (compute_canonical ts) k = find_first (shape_of info) ts.
+Proof.
+  intro H. unfold compute_canonical.
+  apply (canon_go_spec ts [] []); [intro sh; reflexivity | exact H].
+Qed.
+
+Lemma canon_go_length ts : forall acc id, length (canon_go acc id ts) = length ts.
+Proof.
+  induction ts as [|t ts IH]; intros acc id; cbn [canon_go length]; [reflexivity|].
+  destruct (assoc_shape (shape_of t) acc); cbn [length]; rewrite IH; reflexivity.
+Qed.
+
+Lemma compute_canonical_length ts : length (compute_canonical ts) = length ts.
+Proof. apply canon_go_length. Qed.
+
+(* compute_canonical_tuples maps an id to the LOWEST id with equal name and labels *)
+Lemma canonical_is_lowest ts t info :
+  nth_error ts t = Some info ->
+  exists c, nth_error (compute_canonical ts) t = Some c /\ (c <= t)%nat /\
+            (exists ic, nth_error ts c = Some ic /\ shape_of ic = shape_of info) /\
+            (forall j ij, (j < c)%nat -> nth_error ts j = Some ij -> shape_of ij <> shape_of info).
+Proof.
+  intro H. rewrite (compute_canonical_spec _ _ _ H).
+  destruct (find_first_present _ _ _ H) as [j [Hj Hle]].
+  exists j. split; [exact Hj|]. split; [exact Hle|].
+  apply find_first_some. exact Hj.
+Qed.
+
+Lemma canonical_iff_same_shape ts t1 t2 i1 i2 :
+  nth_error ts t1 = Some i1 -> nth_error ts t2 = Some i2 ->
+  (nth_error (compute_canonical ts) t1 = nth_error (compute_canonical ts) t2 <->
+   (t_name i1, t_labels i1) = (t_name i2, t_labels i2)).
+Proof.
+  intros H1 H2. rewrite (compute_canonical_spec _ _ _ H1), (compute_canonical_spec _ _ _ H2).
+  change (t_name i1, t_labels i1) with (shape_of i1). change (t_name i2, t_labels i2) with (shape_of i2).
+  split.
+  - intro E. destruct (find_first_present _ _ _ H1) as [j [Hj _]].
+    rewrite Hj in E. symmetry in E.
+    destruct (find_first_some _ _ _ Hj) as [[ia [Ha Hsa]] _].
+    destruct (find_first_some _ _ _ E) as [[ib [Hb Hsb]] _].
+    rewrite Ha in Hb. inversion Hb; subst. congruence.
+  - intro E. rewrite E. reflexivity.
+Qed.
+
+(* the table over a longer tuple list agrees with the old one on the old ids *)
+Lemma compute_canonical_app ts ext t :
+  (t < length ts)%nat ->
+  nth_error (compute_canonical (ts ++ ext)) t = nth_error (compute_canonical ts) t.
+Proof.
+  intro Ht. destruct (nth_error ts t) as [info|] eqn:H; [|apply nth_error_None in H; lia].
+  assert (H' : nth_error (ts ++ ext) t = Some info) by (rewrite nth_error_app1; assumption).
+  rewrite (compute_canonical_spec _ _ _ H), (compute_canonical_spec _ _ _ H').
+  rewrite find_first_app. destruct (find_first_present _ _ _ H) as [j [Hj _]]. rewrite Hj. reflexivity.
+Qed.
+
+(* ================================================================ values: induction principle *)
+
+Section value_induction.
+  Variable Pv : value -> Prop.
+  Hypothesis Hint : forall z, Pv (VInt z).
+  Hypothesis Hbin : forall b, Pv (VBin b).
+  Hypothesis Href : forall r, Pv (VRef r).
+  Hypothesis Htup : forall t fs, Forall Pv fs -> Pv (VTuple t fs).
+  Hypothesis Hfun : forall f caps, Forall Pv caps -> Pv (VFun f caps).
+  Hypothesis Hbi : forall b, Pv (VBuiltin b).
+  Hypothesis Hproc : forall p f, Pv (VProc p f).
+  Hypothesis Hres : forall r t, Pv (VRes r t).
+
+  Fixpoint value_ind' (v : value) : Pv v :=
+    match v with
+    | VInt z => Hint z
+    | VBin b => Hbin b
+    | VRef r => Href r
+    | VTuple t fs =>
+        Htup t fs ((fix go (l : list value) : Forall Pv l :=
+                      match l with [] => Forall_nil _ | x :: l' => Forall_cons _ (value_ind' x) (go l') end) fs)
+    | VFun f caps =>
+        Hfun f caps ((fix go (l : list value) : Forall Pv l :=
+                        match l with [] => Forall_nil _ | x :: l' => Forall_cons _ (value_ind' x) (go l') end) caps)
+    | VBuiltin b => Hbi b
+    | VProc p f => Hproc p f
+    | VRes r t => Hres r t
+    end.
+End value_induction.
+
+(* unfolding lemmas: the nested fixpoints are the top-level list functions *)
+Lemma values_equal_tuple P ta fa tb fb :
+  values_equal P (VTuple ta fa) (VTuple tb fb) =
+  Nat.eqb (canonical_tuple P ta) (canonical_tuple P tb) && Nat.eqb (length fa) (length fb) && zip_all P fa fb.
+Proof.
+  cbn [values_equal]. f_equal.
+  revert fb. induction fa as [|x fa IH]; intros [|y fb]; cbn [zip_all]; try reflexivity.
+  rewrite IH. reflexivity.
+Qed.
+
+Lemma values_equal_fun P ia ca ib cb :
+  values_equal P (VFun ia ca) (VFun ib cb) =
+  Z.eqb ia ib && Nat.eqb (length ca) (length cb) && zip_all P ca cb.
+Proof.
+  cbn [values_equal]. f_equal.
+  revert cb. induction ca as [|x ca IH]; intros [|y cb]; cbn [zip_all]; try reflexivity.
+  rewrite IH. reflexivity.
+Qed.
+
+Lemma wf_value_tuple P t fs :
+  wf_value P (VTuple t fs) <-> (t < length (tuples P))%nat /\ Forall (wf_value P) fs.
+Proof.
+  cbn [wf_value]. apply and_iff_compat_l.
+  induction fs as [|x fs IH]; [split; constructor|].
+  split.
+  - intros [Hx Hr]. constructor; [exact Hx | apply IH; exact Hr].
+  - intro H. inversion H; subst. split; [assumption | apply IH; assumption].
+Qed.
+
+Lemma wf_value_fun P f caps :
+  wf_value P (VFun f caps) <-> Forall (wf_value P) caps.
+Proof.
+  cbn [wf_value].
+  induction caps as [|x fs IH]; [split; constructor|].
+  split.
+  - intros [Hx Hr]. constructor; [exact Hx | apply IH; exact Hr].
+  - intro H. inversion H; subst. split; [assumption | apply IH; assumption].
+Qed.
+
+Lemma wf_valueb_spec P v : wf_valueb P v = true <-> wf_value P v.
+Proof.
+  induction v as [z|b|r|t fs IH|f caps IH|b|p f|r t] using value_ind'; cbn [wf_valueb wf_value];
+    try (split; intro; [exact I | reflexivity]).
+  - destruct (bin_bytes P b); split; intro H; try discriminate; try reflexivity; try congruence.
+  - rewrite andb_true_iff, Nat.ltb_lt. apply and_iff_compat_l.
+    induction IH as [|x fs Hx _ IHfs]; [split; intro; [exact I | reflexivity]|].
+    rewrite andb_true_iff, Hx, IHfs. reflexivity.
+  - induction IH as [|x fs Hx _ IHfs]; [split; intro; [exact I | reflexivity]|].
+    rewrite andb_true_iff, Hx, IHfs. reflexivity.
+Qed.
+
+(* ================================================================ binaries *)
+
+Lemma bytes_eqb_length x y : bytes_eqb x y = true -> length x = length y.
+Proof. intro H. apply bytes_eqb_eq in H. subst. reflexivity. Qed.
+
+(* the three arms of the Binary comparison all decide: both resolve, to the same bytes *)
+Lemma bin_equal_spec P a b :
+  bin_equal P a b = true <-> exists bs, bin_bytes P a = Some bs /\ bin_bytes P b = Some bs.
+Proof.
+  destruct a as [ia|ia], b as [ib|ib]; cbn [bin_equal bin_bytes].
+  - destruct (nth_error (constants P) ia) as [[z|x]|], (nth_error (constants P) ib) as [[z'|y]|];
+      try (split; [discriminate | intros [bs [H1 H2]]; discriminate]).
+    rewrite bytes_eqb_eq. split; [intro; subst; eauto | intros [bs [H1 H2]]; congruence].
+  - destruct (nth_error (constants P) ia) as [[z|x]|], (nth_error (heap P) ib) as [y|];
+      try (split; [discriminate | intros [bs [H1 H2]]; discriminate]).
+    rewrite bytes_eqb_eq. split; [intro; subst; eauto | intros [bs [H1 H2]]; congruence].
+  - destruct (nth_error (constants P) ib) as [[z|x]|], (nth_error (heap P) ia) as [y|];
+      try (split; [discriminate | intros [bs [H1 H2]]; discriminate]).
+    rewrite bytes_eqb_eq. split; [intro; subst; eauto | intros [bs [H1 H2]]; congruence].
+  - destruct (nth_error (heap P) ia) as [x|], (nth_error (heap P) ib) as [y|];
+      try (split; [discriminate | intros [bs [H1 H2]]; discriminate]).
+    destruct (Nat.eqb (length x) (length y)) eqn:L; cbn [negb].
+    + rewrite bytes_eqb_eq. split; [intro; subst; eauto | intros [bs [H1 H2]]; congruence].
+    + split; [discriminate|]. intros [bs [H1 H2]].
+      assert (x = y) by congruence. subst. rewrite Nat.eqb_refl in L. discriminate.
+Qed.
+
+(* ================================================================ values_equal is structural *)
+
+Lemma zip_all_spec P (Q : value -> value -> Prop) fa :
+  Forall (fun x => forall y, values_equal P x y = true <-> Q x y) fa ->
+  forall fb, length fa = length fb ->
+  (zip_all P fa fb = true <-> Forall2 Q fa fb).
+Proof.
+  induction 1 as [|x fa Hx _ IH]; intros [|y fb] Hlen; cbn [length] in Hlen; try discriminate.
+  - cbn [zip_all]. split; [constructor | reflexivity].
+  - cbn [zip_all]. rewrite andb_true_iff, Hx, (IH fb) by lia.
+    split; [intros [H1 H2]; constructor; assumption | intro H; inversion H; subst; auto].
+Qed.
+
+Lemma Forall2_map_eq {A B} (f : A -> B) l1 l2 :
+  Forall2 (fun x y => f x = f y) l1 l2 <-> map f l1 = map f l2.
+Proof.
+  revert l2. induction l1 as [|x l1 IH]; intros [|y l2]; cbn [map]; split; intro H;
+    try reflexivity; try discriminate; try (inversion H; fail); try constructor.
+  - inversion H; subst. f_equal; [assumption | apply IH; assumption].
+  - inversion H; reflexivity.
+  - inversion H. apply IH. assumption.
+Qed.
+
+Lemma canonical_tuple_wf P t info :
+  wf_tables P -> nth_error (tuples P) t = Some info ->
+  nth_error (canonical P) t = Some (canonical_tuple P t).
+Proof.
+  intros Hwf Ht. unfold canonical_tuple. rewrite Hwf.
+  destruct (canonical_is_lowest _ _ _ Ht) as [c [Hc _]]. rewrite Hc. reflexivity.
+Qed.
+
+Lemma canonical_tuple_iff P ta tb ia ib :
+  wf_tables P -> nth_error (tuples P) ta = Some ia -> nth_error (tuples P) tb = Some ib ->
+  (canonical_tuple P ta = canonical_tuple P tb <-> (t_name ia, t_labels ia) = (t_name ib, t_labels ib)).
+Proof.
+  intros Hwf Ha Hb.
+  rewrite <- (canonical_iff_same_shape _ _ _ _ _ Ha Hb).
+  pose proof (canonical_tuple_wf _ _ _ Hwf Ha) as Ca.
+  pose proof (canonical_tuple_wf _ _ _ Hwf Hb) as Cb.
+  rewrite Hwf in Ca, Cb. rewrite Ca, Cb.
+  split; [intro E; rewrite E; reflexivity | intro E; inversion E; reflexivity].
+Qed.
+
+Lemma zip_all_erase P fa :
+  Forall (fun x => forall y, wf_value P x -> wf_value P y ->
+                   (values_equal P x y = true <-> erase P x = erase P y)) fa ->
+  Forall (wf_value P) fa ->
+  forall fb, Forall (wf_value P) fb -> length fa = length fb ->
+  (zip_all P fa fb = true <-> map (erase P) fa = map (erase P) fb).
+Proof.
+  induction 1 as [|x fa Hx _ IH]; intros Hwa [|y fb] Hwb Hlen; cbn [length] in Hlen; try discriminate.
+  - cbn [zip_all map]. split; reflexivity.
+  - inversion Hwa; subst. inversion Hwb; subst.
+    cbn [zip_all map]. rewrite andb_true_iff, (Hx y), (IH H2 fb) by (assumption || lia).
+    split; [intros [H5 H6]; f_equal; assumption | intro H; inversion H; auto].
+Qed.
+
+Theorem values_equal_structural P :
+  wf_tables P ->
+  forall v w, wf_value P v -> wf_value P w ->
+  (values_equal P v w = true <-> erase P v = erase P w).
+Proof.
+  intros Hwf v.
+  induction v as [z|b|r|t fs IH|f caps IH|b|p f|r t] using value_ind'; intros w Hv Hw.
+  - destruct w as [z'|b'|r'|t' fs'|f' caps'|b'|p' f'|r' t']; cbn [values_equal erase]; try (split; discriminate).
+    + rewrite Z.eqb_eq. split; [intro; subst; reflexivity | intro H; inversion H; reflexivity].
+    + split; [discriminate|]. destruct (bin_bytes P b'); discriminate.
+    + split; [discriminate|]. destruct (nth_error (tuples P) t'); discriminate.
+  - cbn [wf_value] in Hv. destruct (bin_bytes P b) as [x|] eqn:Eb; [|contradiction Hv; reflexivity].
+    destruct w as [z'|b'|r'|t' fs'|f' caps'|b'|p' f'|r' t']; cbn [values_equal erase]; rewrite ?Eb;
+      try (split; discriminate).
+    + rewrite bin_equal_spec. cbn [wf_value] in Hw.
+      destruct (bin_bytes P b') as [y|] eqn:Eb'; [|contradiction Hw; reflexivity].
+      split; [intros [bs [H1 H2]]; congruence | intro H; inversion H; subst; eauto].
+    + split; [discriminate|]. destruct (nth_error (tuples P) t'); discriminate.
+  - destruct w as [z'|b'|r'|t' fs'|f' caps'|b'|p' f'|r' t']; cbn [values_equal erase]; try (split; discriminate).
+    + split; [discriminate|]. destruct (bin_bytes P b'); discriminate.
+    + rewrite Z.eqb_eq. split; [intro; subst; reflexivity | intro H; inversion H; reflexivity].
+    + split; [discriminate|]. destruct (nth_error (tuples P) t'); discriminate.
+  - apply wf_value_tuple in Hv. destruct Hv as [Ht Hfs].
+    destruct (nth_error (tuples P) t) as [ia|] eqn:Ea; [|apply nth_error_None in Ea; lia].
+    destruct w as [z'|b'|r'|t' fs'|f' caps'|b'|p' f'|r' t']; cbn [erase]; rewrite ?Ea;
+      try (cbn [values_equal]; split; discriminate).
+    + cbn [values_equal]. split; [discriminate|]. destruct (bin_bytes P b'); discriminate.
+    + apply wf_value_tuple in Hw. destruct Hw as [Ht' Hfs'].
+      destruct (nth_error (tuples P) t') as [ib|] eqn:Eb; [|apply nth_error_None in Eb; lia].
+      rewrite values_equal_tuple, !andb_true_iff, !Nat.eqb_eq.
+      rewrite (canonical_tuple_iff P t t' ia ib Hwf Ea Eb).
+      split.
+      * intros [[Hsh Hlen] Hz]. inversion Hsh as [[Hn Hl]]. f_equal.
+        apply (zip_all_erase P fs IH Hfs fs' Hfs' Hlen). exact Hz.
+      * intro H. inversion H as [[Hn Hl Hm]].
+        assert (Hlen : length fs = length fs').
+        { rewrite <- (map_length (erase P) fs), <- (map_length (erase P) fs'), Hm. reflexivity. }
+        split; [split; [congruence | exact Hlen]|].
+        apply (zip_all_erase P fs IH Hfs fs' Hfs' Hlen). exact Hm.
+  - apply wf_value_fun in Hv.
+    destruct w as [z'|b'|r'|t' fs'|f' caps'|b'|p' f'|r' t']; cbn [erase];
+      try (cbn [values_equal]; split; discriminate).
+    + cbn [values_equal]. split; [discriminate|]. destruct (bin_bytes P b'); discriminate.
+    + cbn [values_equal]. split; [discriminate|]. destruct (nth_error (tuples P) t'); discriminate.
+    + apply wf_value_fun in Hw.
+      rewrite values_equal_fun, !andb_true_iff, Nat.eqb_eq, Z.eqb_eq.
+      split.
+      * intros [[Hf Hlen] Hz]. subst. f_equal.
+        apply (zip_all_erase P caps IH Hv caps' Hw Hlen). exact Hz.
+      * intro H. inversion H as [[Hf Hm]].
+        assert (Hlen : length caps = length caps').
+        { rewrite <- (map_length (erase P) caps), <- (map_length (erase P) caps'), Hm. reflexivity. }
+        split; [split; [reflexivity | exact Hlen]|].
+        apply (zip_all_erase P caps IH Hv caps' Hw Hlen). exact Hm.
+  - destruct w as [z'|b'|r'|t' fs'|f' caps'|b'|p' f'|r' t']; cbn [values_equal erase]; try (split; discriminate).
+    + split; [discriminate|]. destruct (bin_bytes P b'); discriminate.
+    + split; [discriminate|]. destruct (nth_error (tuples P) t'); discriminate.
+    + rewrite Z.eqb_eq. split; [intro; subst; reflexivity | intro H; inversion H; reflexivity].
+  - destruct w as [z'|b'|r'|t' fs'|f' caps'|b'|p' f'|r' t']; cbn [values_equal erase]; try (split; discriminate).
+    + split; [discriminate|]. destruct (bin_bytes P b'); discriminate.
+    + split; [discriminate|]. destruct (nth_error (tuples P) t'); discriminate.
+    + rewrite Z.eqb_eq. split; [intro; subst; reflexivity | intro H; inversion H; reflexivity].
+  - destruct w as [z'|b'|r'|t' fs'|f' caps'|b'|p' f'|r' t']; cbn [values_equal erase]; try (split; discriminate).
+    + split; [discriminate|]. destruct (bin_bytes P b'); discriminate.
+    + split; [discriminate|]. destruct (nth_error (tuples P) t'); discriminate.
+    + rewrite Z.eqb_eq. split; [intro; subst; reflexivity | intro H; inversion H; reflexivity].
+Qed.
+
+(* ================================================================ corollaries *)
+
+Theorem equal_refl P v : wf_tables P -> wf_value P v -> values_equal P v v = true.
+Proof. intros Hwf Hv. apply (values_equal_structural P Hwf v v Hv Hv). reflexivity. Qed.
+
+Theorem equal_sym P v w :
+  wf_tables P -> wf_value P v -> wf_value P w ->
+  values_equal P v w = values_equal P w v.
+Proof.
+  intros Hwf Hv Hw.
+  destruct (values_equal P v w) eqn:E1, (values_equal P w v) eqn:E2; try reflexivity.
+  - apply (values_equal_structural P Hwf v w Hv Hw) in E1. symmetry in E1.
+    apply (values_equal_structural P Hwf w v Hw Hv) in E1. congruence.
+  - apply (values_equal_structural P Hwf w v Hw Hv) in E2. symmetry in E2.
+    apply (values_equal_structural P Hwf v w Hv Hw) in E2. congruence.
+Qed.
+
+Theorem equal_trans P u v w :
+  wf_tables P -> wf_value P u -> wf_value P v -> wf_value P w ->
+  values_equal P u v = true -> values_equal P v w = true -> values_equal P u w = true.
+Proof.
+  intros Hwf Hu Hv Hw H1 H2.
+  apply (values_equal_structural P Hwf u v Hu Hv) in H1.
+  apply (values_equal_structural P Hwf v w Hv Hw) in H2.
+  apply (values_equal_structural P Hwf u w Hu Hw). congruence.
+Qed.
+
+(* a binary is its bytes, wherever it lives (constants table, heap slot, any rope of that content) *)
+Theorem equal_binary_representation_independent P a b :
+  values_equal P (VBin a) (VBin b) = true <->
+  exists bs, bin_bytes P a = Some bs /\ bin_bytes P b = Some bs.
+Proof. cbn [values_equal]. apply bin_equal_spec. Qed.
+
+Corollary equal_constant_vs_heap P k i bs :
+  nth_error (constants P) k = Some (CBin bs) -> nth_error (heap P) i = Some bs ->
+  values_equal P (VBin (BConst k)) (VBin (BHeap i)) = true /\
+  values_equal P (VBin (BHeap i)) (VBin (BConst k)) = true.
+Proof.
+  intros Hk Hi. split; apply equal_binary_representation_independent; exists bs;
+    cbn [bin_bytes]; rewrite Hk, Hi; split; reflexivity.
+Qed.
+
+(* two tuple ids with the same name and labels build the same value *)
+Theorem equal_tuple_id_independent P t1 t2 i1 i2 fs1 fs2 :
+  wf_tables P ->
+  nth_error (tuples P) t1 = Some i1 -> nth_error (tuples P) t2 = Some i2 ->
+  (t_name i1, t_labels i1) = (t_name i2, t_labels i2) ->
+  Forall2 (fun x y => values_equal P x y = true) fs1 fs2 ->
+  values_equal P (VTuple t1 fs1) (VTuple t2 fs2) = true.
+Proof.
+  intros Hwf H1 H2 Hsh Hfs.
+  rewrite values_equal_tuple, !andb_true_iff, !Nat.eqb_eq.
+  split; [split|].
+  - apply (canonical_tuple_iff P t1 t2 i1 i2 Hwf H1 H2). exact Hsh.
+  - clear -Hfs. induction Hfs; cbn [length]; [reflexivity | f_equal; assumption].
+  - induction Hfs as [|x y l1 l2 Hxy _ IH]; cbn [zip_all]; [reflexivity|].
+    rewrite Hxy, IH. reflexivity.
+Qed.
+
+(* ---------------------------------------------------------------- appending updates *)
+
+Lemma bin_bytes_update P cs hs ts b :
+  bin_bytes P b <> None -> bin_bytes (update_tables P cs hs ts) b = bin_bytes P b.
+Proof.
+  destruct b as [k|i]; cbn [bin_bytes update_tables constants heap]; intro H.
+  - destruct (nth_error (constants P) k) as [c|] eqn:E; [|contradiction H; reflexivity].
+    rewrite nth_error_app1 by (apply nth_error_Some; congruence). rewrite E. reflexivity.
+  - destruct (nth_error (heap P) i) as [c|] eqn:E; [|contradiction H; reflexivity].
+    rewrite nth_error_app1 by (apply nth_error_Some; congruence). rewrite E. reflexivity.
+Qed.
+
+Lemma wf_tables_update P cs hs ts : wf_tables (update_tables P cs hs ts).
 Proof. reflexivity. Qed.
+
+Lemma wf_value_update P cs hs ts v :
+  wf_value P v -> wf_value (update_tables P cs hs ts) v.
+Proof.
+  induction v as [z|b|r|t fs IH|f caps IH|b|p f|r t] using value_ind'; intro H; try exact I.
+  - cbn [wf_value] in *. rewrite bin_bytes_update; assumption.
+  - apply wf_value_tuple in H. destruct H as [Ht Hfs]. apply wf_value_tuple. split.
+    + cbn [update_tables tuples]. rewrite app_length. lia.
+    + rewrite Forall_forall in *. intros x Hx. apply IH; [exact Hx | apply Hfs; exact Hx].
+  - apply wf_value_fun in H. apply wf_value_fun.
+    rewrite Forall_forall in *. intros x Hx. apply IH; [exact Hx | apply H; exact Hx].
+Qed.
+
+Lemma erase_update P cs hs ts v :
+  wf_value P v -> erase (update_tables P cs hs ts) v = erase P v.
+Proof.
+  induction v as [z|b|r|t fs IH|f caps IH|b|p f|r t] using value_ind'; intro H; try reflexivity.
+  - cbn [erase wf_value] in *. rewrite bin_bytes_update by assumption. reflexivity.
+  - apply wf_value_tuple in H. destruct H as [Ht Hfs]. cbn [erase].
+    cbn [update_tables tuples]. rewrite nth_error_app1 by exact Ht.
+    destruct (nth_error (tuples P) t); [|reflexivity]. f_equal.
+    apply map_ext_in. intros x Hx. rewrite Forall_forall in *. apply IH; [exact Hx | apply Hfs; exact Hx].
+  - apply wf_value_fun in H. cbn [erase]. f_equal.
+    apply map_ext_in. intros x Hx. rewrite Forall_forall in *. apply IH; [exact Hx | apply H; exact Hx].
+Qed.
+
+(* update_program only appends (constants, tuples; the heap only grows) and recomputes the
+   canonical table over the whole tuple list: verdicts on existing values do not change *)
+Theorem equal_stable_under_update P cs hs ts v w :
+  wf_tables P -> wf_value P v -> wf_value P w ->
+  values_equal (update_tables P cs hs ts) v w = values_equal P v w.
+Proof.
+  intros Hwf Hv Hw.
+  pose proof (values_equal_structural P Hwf v w Hv Hw) as H1.
+  pose proof (values_equal_structural (update_tables P cs hs ts) (wf_tables_update P cs hs ts) v w
+                (wf_value_update P cs hs ts v Hv) (wf_value_update P cs hs ts w Hw)) as H2.
+  rewrite !erase_update in H2 by assumption.
+  destruct (values_equal (update_tables P cs hs ts) v w), (values_equal P v w); try reflexivity.
+  - symmetry. apply H1. apply H2. reflexivity.
+  - apply H2. apply H1. reflexivity.
+Qed.
+
+(* the canonical id of an existing tuple id is unchanged by an appending update *)
+Theorem canonical_stable_under_update P cs hs ts t :
+  wf_tables P -> (t < length (tuples P))%nat ->
+  canonical_tuple (update_tables P cs hs ts) t = canonical_tuple P t.
+Proof.
+  intros Hwf Ht. unfold canonical_tuple. cbn [update_tables canonical]. rewrite Hwf.
+  rewrite compute_canonical_app by exact Ht. reflexivity.
+Qed.
+
+(* ---------------------------------------------------------------- the pattern-level verdict *)
+
+(* Equal(2); Not; JumpIf(fail): the requirement of a pin / literal / repeated binder is met
+   exactly when values_equal says so (in particular also when both values are nil) *)
+Theorem pin_matches_spec P a b :
+  wf_tables P -> wf_value P a ->
+  pin_matches P a b = Val (values_equal P a b).
+Proof.
+  intros Hwf Ha. unfold pin_matches, handle_equal.
+  cbn [length Nat.ltb Nat.leb firstn rev app skipn forallb obind].
+  rewrite (equal_refl P a Hwf Ha). cbn [andb].
+  destruct (values_equal P a b); reflexivity.
+Qed.
+
+(* handle_equal never reads below the `count` topmost values and returns a verdict *)
+Theorem handle_equal_verdict P first rest below :
+  handle_equal P (S (length rest)) (rev (first :: rest) ++ below) =
+  Val ((if forallb (values_equal P first) (first :: rest) then ok_value else nil_value) :: below).
+Proof.
+  unfold handle_equal.
+  remember (rev (first :: rest)) as top eqn:Etop.
+  assert (Hlen : length top = S (length rest)) by (subst; rewrite rev_length; reflexivity).
+  rewrite <- Hlen.
+  replace (Nat.ltb (length (top ++ below)) (length top)) with false
+    by (symmetry; apply Nat.ltb_ge; rewrite app_length; lia).
+  rewrite firstn_app, Nat.sub_diag, firstn_all, firstn_O, app_nil_r.
+  rewrite skipn_app, Nat.sub_diag, skipn_all, skipn_O. cbn [app].
+  subst top. rewrite rev_involutive. reflexivity.
+Qed.
+
+(* ================================================================ refs *)
+
+Lemma ref_value_arith w n :
+  0 <= w < 2 ^ 16 -> ref_value w n = Z.lor (Z.shiftl w 48) n.
+Proof.
+  intro Hw. unfold ref_value, wrap_u64, two64. f_equal.
+  rewrite Z.shiftl_mul_pow2 by lia. apply Z.mod_small.
+  change (2 ^ 64) with (2 ^ 16 * 2 ^ 48). nia.
+Qed.
+
+Lemma ref_value_worker w n :
+  0 <= w < 2 ^ 16 -> 0 <= n < 2 ^ 48 -> Z.shiftr (ref_value w n) 48 = w.
+Proof.
+  intros Hw Hn. rewrite ref_value_arith by exact Hw.
+  rewrite Z.shiftr_lor, Z.shiftr_shiftl_l by lia.
+  rewrite Z.sub_diag, Z.shiftl_0_r.
+  rewrite (Z.shiftr_div_pow2 n) by lia. rewrite Z.div_small by lia. apply Z.lor_0_r.
+Qed.
+
+Lemma ref_value_counter w n :
+  0 <= w < 2 ^ 16 -> 0 <= n < 2 ^ 48 -> Z.land (ref_value w n) (Z.ones 48) = n.
+Proof.
+  intros Hw Hn. rewrite ref_value_arith by exact Hw.
+  rewrite Z.land_lor_distr_l, !Z.land_ones by lia.
+  rewrite Z.shiftl_mul_pow2 by lia. rewrite Z.mod_mul by lia.
+  rewrite Z.mod_small by lia. apply Z.lor_0_l.
+Qed.
+
+Theorem create_ref_injective w1 n1 w2 n2 :
+  0 <= w1 < 2 ^ 16 -> 0 <= w2 < 2 ^ 16 -> 0 <= n1 < 2 ^ 48 -> 0 <= n2 < 2 ^ 48 ->
+  ref_value w1 n1 = ref_value w2 n2 -> w1 = w2 /\ n1 = n2.
+Proof.
+  intros Hw1 Hw2 Hn1 Hn2 E. split.
+  - rewrite <- (ref_value_worker w1 n1), <- (ref_value_worker w2 n2) by assumption. rewrite E. reflexivity.
+  - rewrite <- (ref_value_counter w1 n1), <- (ref_value_counter w2 n2) by assumption. rewrite E. reflexivity.
+Qed.
+
+(* beyond the bound the code does not enforce, mintings of different workers DO collide *)
+Lemma create_ref_collides_beyond_bound : ref_value 0 (2 ^ 48) = ref_value 1 0.
+Proof. vm_compute. reflexivity. Qed.
+
+Lemma nodup_map_inj {A B} (f : A -> B) l x y :
+  NoDup (map f l) -> In x l -> In y l -> f x = f y -> x = y.
+Proof.
+  induction l as [|a l IH]; cbn [map]; intros Hnd Hx Hy E; [contradiction|].
+  inversion Hnd as [|? ? Hnotin Hnd']; subst.
+  destruct Hx as [Hx|Hx], Hy as [Hy|Hy]; subst.
+  - reflexivity.
+  - exfalso. apply Hnotin. rewrite E. apply in_map. exact Hy.
+  - exfalso. apply Hnotin. rewrite <- E. apply in_map. exact Hx.
+  - apply IH; assumption.
+Qed.
+
+Lemma update_nth_length {A} (l : list A) i x : length (update_nth l i x) = length l.
+Proof.
+  revert i. induction l as [|h t IH]; intros [|i]; cbn [update_nth length]; try reflexivity.
+  rewrite IH. reflexivity.
+Qed.
+
+Lemma update_nth_hit {A} (l : list A) i x e :
+  nth_error l i = Some e -> nth_error (update_nth l i x) i = Some x.
+Proof.
+  revert i. induction l as [|h t IH]; intros [|i] H; cbn in *; try discriminate; [reflexivity|].
+  apply IH. exact H.
+Qed.
+
+Lemma update_nth_in {A} (l : list A) i x y : In y (update_nth l i x) -> y = x \/ In y l.
+Proof.
+  revert i. induction l as [|h t IH]; intros [|i] H; cbn in *; try contradiction.
+  - destruct H as [H|H]; [left; auto | right; right; exact H].
+  - destruct H as [H|H]; [right; left; exact H|]. destruct (IH i H) as [H'|H']; [left; exact H' | right; right; exact H'].
+Qed.
+
+Lemma update_nth_map {A B} (f : A -> B) (l : list A) i x e :
+  nth_error l i = Some e -> f x = f e -> map f (update_nth l i x) = map f l.
+Proof.
+  revert i. induction l as [|h t IH]; intros [|i] H E; cbn in *; try discriminate.
+  - inversion H; subst. rewrite E. reflexivity.
+  - f_equal. apply IH; assumption.
+Qed.
+
+Definition minter_ok (bound : Z) (e : minter) : Prop :=
+  0 <= worker_id e < 2 ^ 16 /\ 0 <= next_ref e /\ next_ref e + bound <= 2 ^ 48.
+
+(* every ref minted from state `sys` on carries the worker id of one of the executors and a
+   counter at or above that executor's current counter *)
+Definition minted_from (sys : list minter) (r : Z) : Prop :=
+  exists e k, In e sys /\ next_ref e <= k < 2 ^ 48 /\ r = ref_value (worker_id e) k.
+
+Lemma run_mints_unique m sched : forall sys,
+  NoDup (map worker_id sys) ->
+  Forall (minter_ok (Z.of_nat (length sched))) sys ->
+  exists refs, run_mints m sys sched = Val refs /\ NoDup refs /\ Forall (minted_from sys) refs.
+Proof.
+  induction sched as [|i rest IH]; intros sys Hnd Hok.
+  - exists []. repeat split; constructor.
+  - cbn [run_mints].
+    assert (Hok' : Forall (minter_ok (Z.of_nat (length rest))) sys).
+    { eapply Forall_impl; [|exact Hok]. intros e [H1 [H2 H3]]. cbn [length] in H3.
+      repeat split; try assumption; lia. }
+    destruct (nth_error sys i) as [e|] eqn:Ei; [|apply IH; assumption].
+    assert (Hin : In e sys) by (eapply nth_error_In; exact Ei).
+    destruct (proj1 (Forall_forall _ _) Hok e Hin) as [Hw [Hn Hb]]. cbn [length] in Hb.
+    unfold create_ref.
+    assert (Hu : in_u64 (next_ref e + 1) = true).
+    { unfold in_u64, two64. apply andb_true_iff. split; [apply Z.leb_le | apply Z.ltb_lt]; lia. }
+    rewrite Hu. cbn [obind fst snd].
+    set (e' := {| worker_id := worker_id e; next_ref := next_ref e + 1 |}).
+    set (sys' := update_nth sys i e').
+    assert (Hmap : map worker_id sys' = map worker_id sys) by (apply (update_nth_map worker_id sys i e' e Ei); reflexivity).
+    assert (Hnd' : NoDup (map worker_id sys')) by (rewrite Hmap; exact Hnd).
+    assert (Hin' : In e' sys') by (eapply nth_error_In; eapply update_nth_hit; exact Ei).
+    assert (Hoks : Forall (minter_ok (Z.of_nat (length rest))) sys').
+    { apply Forall_forall. intros x Hx. destruct (update_nth_in _ _ _ _ Hx) as [->|Hx'].
+      - unfold minter_ok, e'. cbn [worker_id next_ref]. repeat split; lia.
+      - apply (proj1 (Forall_forall _ _) Hok' x Hx'). }
+    destruct (IH sys' Hnd' Hoks) as [refs [Hrun [Hnodup Hfrom]]].
+    rewrite Hrun. cbn [obind]. eexists. split; [reflexivity|]. split.
+    + constructor; [|exact Hnodup].
+      intro Hr. destruct (proj1 (Forall_forall _ _) Hfrom _ Hr) as [x [k [Hx [Hk Er]]]].
+      destruct (proj1 (Forall_forall _ _) Hoks x Hx) as [Hwx [Hnx _]].
+      assert (Hinj : worker_id e = worker_id x /\ next_ref e = k).
+      { apply create_ref_injective; try lia; try assumption. }
+      destruct Hinj as [Ew Ek].
+      assert (x = e') by (apply (nodup_map_inj worker_id sys' x e' Hnd' Hx Hin'); exact (eq_sym Ew)).
+      subst x. unfold e' in Hk. cbn [next_ref] in Hk. lia.
+    + constructor.
+      * exists e, (next_ref e). repeat split; try assumption; lia.
+      * apply Forall_forall. intros r Hr.
+        destruct (proj1 (Forall_forall _ _) Hfrom _ Hr) as [x [k [Hx [Hk Er]]]].
+        destruct (update_nth_in _ _ _ _ Hx) as [->|Hx'].
+        -- exists e, k. unfold e' in *. cbn [next_ref worker_id] in *. repeat split; try assumption; lia.
+        -- exists x, k. repeat split; try assumption; lia.
+Qed.
+
+Theorem refs_unique_system m sys sched :
+  NoDup (map worker_id sys) ->
+  Forall (fun e => 0 <= worker_id e < 2 ^ 16 /\ 0 <= next_ref e /\
+                   next_ref e + Z.of_nat (length sched) <= 2 ^ 48) sys ->
+  exists refs, run_mints m sys sched = Val refs /\ NoDup refs.
+Proof.
+  intros Hnd Hok. destruct (run_mints_unique m sched sys Hnd Hok) as [refs [H1 [H2 _]]].
+  exists refs. split; assumption.
+Qed.
+
+(* ================================================================ evalue_eqb decides equality *)
+
+Section evalue_induction.
+  Variable Pe : evalue -> Prop.
+  Hypothesis Hint : forall z, Pe (EInt z).
+  Hypothesis Hbytes : forall b, Pe (EBytes b).
+  Hypothesis Href : forall r, Pe (ERef r).
+  Hypothesis Htup : forall n l fs, Forall Pe fs -> Pe (ETuple n l fs).
+  Hypothesis Hfun : forall f caps, Forall Pe caps -> Pe (EFun f caps).
+  Hypothesis Hbi : forall b, Pe (EBuiltin b).
+  Hypothesis Hproc : forall p, Pe (EProc p).
+  Hypothesis Hres : forall r, Pe (ERes r).
+  Hypothesis Hbad : Pe EBad.
+
+  Fixpoint evalue_ind' (v : evalue) : Pe v :=
+    match v with
+    | EInt z => Hint z
+    | EBytes b => Hbytes b
+    | ERef r => Href r
+    | ETuple n l fs =>
+        Htup n l fs ((fix go (l : list evalue) : Forall Pe l :=
+                        match l with [] => Forall_nil _ | x :: l' => Forall_cons _ (evalue_ind' x) (go l') end) fs)
+    | EFun f caps =>
+        Hfun f caps ((fix go (l : list evalue) : Forall Pe l :=
+                        match l with [] => Forall_nil _ | x :: l' => Forall_cons _ (evalue_ind' x) (go l') end) caps)
+    | EBuiltin b => Hbi b
+    | EProc p => Hproc p
+    | ERes r => Hres r
+    | EBad => Hbad
+    end.
+End evalue_induction.
+
+Lemma evalue_eqb_spec a : forall b, evalue_eqb a b = true <-> a = b.
+Proof.
+  induction a as [z|bs|r|n l fs IH|f caps IH|bi|p|r|] using evalue_ind'; intros b;
+    destruct b as [z'|bs'|r'|n' l' fs'|f' caps'|bi'|p'|r'|]; cbn [evalue_eqb];
+    try (split; [discriminate | intro H; discriminate H]);
+    try (rewrite Z.eqb_eq; split; [intro; subst; reflexivity | intro H; inversion H; reflexivity]).
+  - rewrite bytes_eqb_eq. split; [intro; subst; reflexivity | intro H; inversion H; reflexivity].
+  - rewrite !andb_true_iff, (option_eqb_spec _ bytes_eqb_eq), (list_eqb_spec _ (option_eqb_spec _ bytes_eqb_eq)).
+    assert (Hgo : forall fs', (fix go (xs ys : list evalue) {struct xs} : bool :=
+                                 match xs, ys with
+                                 | [], [] => true
+                                 | x :: xs', y :: ys' => evalue_eqb x y && go xs' ys'
+                                 | _, _ => false
+                                 end) fs fs' = true <-> fs = fs').
+    { induction IH as [|x fs Hx _ IHfs]; intros [|y ys]; try (split; [discriminate | intro H; discriminate H]).
+      - split; reflexivity.
+      - rewrite andb_true_iff, Hx, IHfs. split; [intros [? ?]; subst; reflexivity | intro H; inversion H; auto]. }
+    rewrite Hgo. split; [intros [[? ?] ?]; subst; reflexivity | intro H; inversion H; auto].
+  - rewrite !andb_true_iff, Z.eqb_eq.
+    assert (Hgo : forall fs', (fix go (xs ys : list evalue) {struct xs} : bool :=
+                                 match xs, ys with
+                                 | [], [] => true
+                                 | x :: xs', y :: ys' => evalue_eqb x y && go xs' ys'
+                                 | _, _ => false
+                                 end) caps fs' = true <-> caps = fs').
+    { induction IH as [|x fs Hx _ IHfs]; intros [|y ys]; try (split; [discriminate | intro H; discriminate H]).
+      - split; reflexivity.
+      - rewrite andb_true_iff, Hx, IHfs. split; [intros [? ?]; subst; reflexivity | intro H; inversion H; auto]. }
+    rewrite Hgo. split; [intros [? ?]; subst; reflexivity | intro H; inversion H; auto].
+  - split; reflexivity.
+Qed.
+
+(* values_equal is exactly the decision procedure for erased equality *)
+Corollary values_equal_is_erase_eqb P v w :
+  wf_tables P -> wf_value P v -> wf_value P w ->
+  values_equal P v w = evalue_eqb (erase P v) (erase P w).
+Proof.
+  intros Hwf Hv Hw. pose proof (values_equal_structural P Hwf v w Hv Hw) as H.
+  pose proof (evalue_eqb_spec (erase P v) (erase P w)) as H'.
+  destruct (values_equal P v w), (evalue_eqb (erase P v) (erase P w)); try reflexivity.
+  - symmetry. apply H'. apply H. reflexivity.
+  - apply H. apply H'. reflexivity.
+Qed.
+
+(* ================================================================ non-vacuity *)
+
+Definition ex_A : tuple_info := {| t_name := Some [65]; t_labels := [Some [120]; None] |}.   (* A[x: _, _] *)
+Definition ex_B : tuple_info := {| t_name := Some [66]; t_labels := [Some [120]; None] |}.   (* B[x: _, _] *)
+Definition ex_nil : tuple_info := {| t_name := None; t_labels := [] |}.
+Definition ex_ok : tuple_info := {| t_name := Some [79; 107]; t_labels := [] |}.
+Definition ex_tuples := [ex_nil; ex_ok; ex_A; ex_B; ex_A].
+Definition ex_tables : tables :=
+  {| constants := [CInt 5; CBin [10; 27]]; heap := [[10; 27]; [1]];
+     tuples := ex_tuples; canonical := compute_canonical ex_tuples |}.
+(* the same value twice: A[x: 0x0a1b, A[x: 1, <ref 7>]] with the tuple ids 2/4 swapped and the
+   binary once as a constant, once on the heap *)
+Definition ex_v : value := VTuple 2 [VBin (BConst 1); VTuple 4 [VInt 1; VRef 7]].
+Definition ex_w : value := VTuple 4 [VBin (BHeap 0); VTuple 2 [VInt 1; VRef 7]].
+Definition ex_u : value := VTuple 4 [VBin (BHeap 0); VTuple 3 [VInt 1; VRef 7]].   (* B inside *)
+
+Example ex_canonical : compute_canonical ex_tuples = [0; 1; 2; 3; 2]%nat.
+Proof. vm_compute. reflexivity. Qed.
+
+Example ex_structural :
+  wf_tables ex_tables /\ wf_value ex_tables ex_v /\ wf_value ex_tables ex_w /\ wf_value ex_tables ex_u /\
+  ex_v <> ex_w /\
+  values_equal ex_tables ex_v ex_w = true /\ erase ex_tables ex_v = erase ex_tables ex_w /\
+  values_equal ex_tables ex_v ex_u = false /\ erase ex_tables ex_v <> erase ex_tables ex_u.
+Proof.
+  split; [reflexivity|].
+  split; [apply wf_valueb_spec; vm_compute; reflexivity|].
+  split; [apply wf_valueb_spec; vm_compute; reflexivity|].
+  split; [apply wf_valueb_spec; vm_compute; reflexivity|].
+  split; [discriminate|].
+  split; [vm_compute; reflexivity|].
+  split; [vm_compute; reflexivity|].
+  split; [vm_compute; reflexivity|].
+  vm_compute. discriminate.
+Qed.
+
+Example ex_update :
+  let P' := update_tables ex_tables [CBin [10; 27]] [[10; 27]] [ex_A; ex_B] in
+  canonical P' = [0; 1; 2; 3; 2; 2; 3]%nat /\
+  values_equal P' ex_v ex_w = true /\
+  values_equal P' ex_v (VTuple 5 [VBin (BConst 2); VTuple 4 [VInt 1; VRef 7]]) = true.
+Proof. vm_compute. repeat split; reflexivity. Qed.
+
+Example ex_pin :
+  pin_matches ex_tables ex_v ex_w = Val true /\ pin_matches ex_tables ex_v ex_u = Val false /\
+  pin_matches ex_tables nil_value nil_value = Val true.
+Proof. vm_compute. repeat split; reflexivity. Qed.
+
+Definition ex_sys : list minter :=
+  [ {| worker_id := 0; next_ref := 0 |}; {| worker_id := 1; next_ref := 0 |}; {| worker_id := 65535; next_ref := 5 |} ].
+Example ex_refs :
+  NoDup (map worker_id ex_sys) /\
+  Forall (fun e => 0 <= worker_id e < 2 ^ 16 /\ 0 <= next_ref e /\ next_ref e + Z.of_nat (length [0; 1; 2; 0; 2; 1]%nat) <= 2 ^ 48) ex_sys /\
+  run_mints Debug ex_sys [0; 1; 2; 0; 2; 1]%nat =
+    Val [0; 281474976710656; 18446462598732840965; 1; 18446462598732840966; 281474976710657].
+Proof.
+  split; [repeat constructor; cbn; intuition discriminate|].
+  split; [repeat constructor; cbn; lia|].
+  vm_compute. reflexivity.
+Qed.
